@@ -230,6 +230,16 @@ def check(facts, rep, tier, cfg):
                             any(x.kind == "call" and x[6] == "generate_rustls_rootcertstore" for x in walk(v))
                         if not okv:
                             probs.append("the client verifier is not WebPkiClientVerifier::builder(store(client_ca_path)).build()")
+                        # the store is loaded from the configured client CA path, not from the platform roots
+                        for x in walk(v):
+                            if x.kind == "call" and x[6] == "generate_rustls_rootcertstore":
+                                arg = x[3][0] if x[3] else None
+                                from_ca = arg is not None and (upvar_named(b, arg, "client_ca_path") or
+                                                               any(y.kind == "agg" and y[2].endswith("Option::Some") for y in walk(arg)) and
+                                                               any(upvar_named(b, y, "client_ca_path") for y in walk(arg)))
+                                if not from_ca:
+                                    probs.append("the client-certificate trust store is not loaded from client_ca_path (platform roots / None): "
+                                                 "clients holding a certificate from any public CA are admitted")
                 if probs or seen != {"Some", "None"}:
                     rep.bad("C17.R3", "server-client-auth", where, "; ".join(sorted(set(probs))) or "branches seen: %s" % sorted(seen, key=str))
                 else:
